@@ -29,4 +29,5 @@ def with_state_lint(prop, run):
         if rels:
             shared.no_new_state(check, rels)
             shared.arg_binding(check, rels)
+            shared.edge_orientation(check, rels)
     return wrapped
